@@ -262,6 +262,9 @@ func (pxy *UDPProxy) Close() {
 		close(pxy.checkCloseCh)
 		close(pxy.readCh)
 		close(pxy.sendCh)
+
+		// release the port once only: Close is called a second time by the reader goroutine when it ends,
+		// by then the port may belong to another proxy already
+		pxy.rc.UDPPortManager.Release(pxy.realBindPort)
 	}
-	pxy.rc.UDPPortManager.Release(pxy.realBindPort)
 }
